@@ -94,6 +94,9 @@ func (a AlertError) Error() string { return fmt.Sprintf("peer: received alert %d
 
 // Peer is the record + handshake layer of a scripted endpoint.
 type Peer struct {
+	packing bool
+	packed  bool
+	packBuf []byte
 	DTLS     bool
 	IsClient bool
 	T        Transport
@@ -155,7 +158,26 @@ func (p *Peer) rnd(n int) []byte {
 
 // WriteRecord protects (if active) and sends one record.
 func (p *Peer) WriteRecord(typ byte, payload []byte) error {
+	if p.packing && typ == ref.RecHandshake {
+		// several handshake messages in one record: collected until EndPack
+		p.packBuf = append(p.packBuf, payload...)
+		p.packed = true
+		return nil
+	}
 	return p.T.Send(p.SealRecord(typ, payload))
+}
+
+// BeginPack makes the following handshake messages share one record; EndPack sends it.
+func (p *Peer) BeginPack() { p.packing, p.packBuf, p.packed = true, nil, false }
+
+func (p *Peer) EndPack() error {
+	p.packing = false
+	if !p.packed {
+		return nil
+	}
+	b := p.packBuf
+	p.packBuf, p.packed = nil, false
+	return p.T.Send(p.SealRecord(ref.RecHandshake, b))
 }
 
 // SealRecord builds the wire form of one record and advances the sequence number.
